@@ -392,8 +392,16 @@ func (e *Eval) compile(node ast.Node) error {
 		// value, and no clean termination.  Instead we'd walk
 		// off the end of our bytecode array.
 		//
-		if len(e.instructions) == 0 ||
-			code.Opcode(e.instructions[len(e.instructions)-1]) != code.OpReturn {
+		//
+		// We look at the last instruction, not the last byte:
+		// the last byte may be (half of) an operand that happens
+		// to have the same value as OpReturn.
+		//
+		lastOp := code.OpNop
+		for ip := 0; ip < len(e.instructions); ip += code.Length(lastOp) {
+			lastOp = code.Opcode(e.instructions[ip])
+		}
+		if len(e.instructions) == 0 || lastOp != code.OpReturn {
 			e.emit(code.OpVoid)
 			e.emit(code.OpReturn)
 		}
